@@ -13,7 +13,7 @@ import lzma
 import os
 import random
 
-from vt import monitor, refsem, wf
+from vt import monitor, netgen, refsem, wf
 
 ID = 'C17'
 LEVEL = 'exploration'
@@ -31,7 +31,7 @@ BASIS = {'aig': AND_CLASS | {'INPUT', 'NOT', 'IFF'}, 'xaig': AND_CLASS | {'INPUT
 REQUIRED = {'mon:get_by_label.checked': 2000, 'mon:get_by_raw_truth_table.checked': 500,
             'mon:get_by_raw_truth_table_model.checked': 50, 'lookup:negated': 100, 'lookup:permuted': 100,
             'lookup:duplicate': 50, 'lookup:complementary_outputs': 20, 'entries:aig': 1000, 'entries:xaig': 1000,
-            'model:with_dont_cares': 30, 'model:custom_size_metric': 20}
+            'model:with_dont_cares': 30, 'model:custom_size_metric': 20, 'insertion_refused:CircuitsDatabaseError': 10}
 
 CUR = {'ctx': None, 'case': None, 'db': None, 'index': None, 'sizes': {}}
 
@@ -427,6 +427,24 @@ def run_lookups(spec, ctx):
     db, keys = open_db(name)
     rng = random.Random('%s:%s:lk:%s' % (ctx.seed, name, spec['part']))
     CUR['scribble_rng'] = random.Random('%s:scribble' % ctx.seed)
+    # insertions the opened database must refuse (the label / normalised table is stored already): the caller catches the
+    # error and goes on looking things up - a refused insertion must not have changed what is stored
+    for k in range(6):
+        try:
+            with monitor.suspended():
+                n_ = rng.choice([2, 3])
+                unet = netgen.rand_net(rng, n_in=n_, n_g=rng.randint(1, 4), max_arity=2, n_out=rng.randint(1, 2),
+                                       const_operands=False, allow_input_outputs=False,
+                                       types=['AND', 'OR', 'XOR', 'NOT', 'NAND', 'NOR'])
+                uc = netgen.build(unet)
+            label = None if rng.random() < 0.5 else rng.choice(['0001', '0110', '0111', '00010111', '0001_0110'])
+            try:
+                db.add_circuit(uc, label)
+                ctx.count('insertion_accepted')
+            except Exception as e:
+                ctx.count('insertion_refused:' + type(e).__name__)
+        except Exception as e:
+            ctx.count('insertion_setup_failed:' + type(e).__name__)
     i = 0
     for n, m in ((2, 1), (2, 2), (2, 3), (3, 1)):
         for rows in _all_tables(n, m):
